@@ -12,6 +12,7 @@ import (
 	"encoding/hex"
 	"encoding/json"
 	"fmt"
+	"os"
 	"strings"
 	"testing"
 
@@ -814,6 +815,9 @@ func TestMask(t *testing.T) {
 		}
 		if sess.Status != "ok" {
 			vt.Class("session:" + sess.Status)
+			if os.Getenv("VERIF_C13_DEBUG") != "" {
+				fmt.Fprintf(os.Stderr, "DEBUG session %s under %s: %s\n", sess.Status, base.Gen, sess.Detail)
+			}
 			vt.Sample(map[string]interface{}{"program": p.Describe(), "gen": base.Gen, "status": sess.Status, "detail": sess.Detail})
 			return
 		}
